@@ -380,3 +380,4 @@ EXPLANATION += (' Escape analysis: positive findings (unbounded integer into an 
 EXPLANATION += (' Round 6: ' + "WELLFORMED/resolution-positive: if the installed loader can hand over a negative resolution (mido's header format and PrettyMIDI.__init__ are read on every run), no return of midi_to_note_sequence is reachable with resolution -1 (finding F28).")
 EXPLANATION += (' Round 7: ' + 'WELLFORMED/resolution-positive follows the helper that produces the decoded object and reads only the conditions on the resolution (divmod pairs and membership in literal tables are folded).')
 EXPLANATION += (' Rounds 9-10: ' + 'the escape engine models str.encode / bytes.decode (literal codec and handler; clean, possibly-surrogate and UTF-8 text types): a possibly-surrogate string stored into a string field raises UnicodeEncodeError; exception translation by a context-manager class is cannot-classify.')
+EXPLANATION += (' Round 12: ' + 'in-memory buffering of the file is file access (ESC/wrapper).')
